@@ -87,7 +87,7 @@ FNS = [
                "r.1 is None, r.0 is Some",
        loops={0: "invariant self.mmap_contents.publisher_tail@ == tail + 1, self.mmap_contents.consumer_tail@ == tail, self.mmap_contents.slice_length == old(self).mmap_contents.slice_length, tail == old(self).mmap_contents.consumer_tail@,"
                  " self.buffer@ == old(self).buffer@.update(tail as int, setter.value@), old(self).wf(), tail < old(self).mmap_contents.slice_length@,\n"
-                 "decreases (if self.mmap_contents.consumer_tail@ == tail { 1int } else { 0int }),"}),
+                 "decreases (if self.mmap_contents.consumer_tail@ == tail { 1int } else { 0int }),"}, loops_optional=True),
     fn("available_elements_count", IMPL_PUB, C_META, props=["C09"], kind="helper",
        sig="pub fn available_elements_count(&self) -> (r: usize)", sig_anchor=r"fn available_elements_count\(&self\) -> usize",
        requires="self.wf()", ensures="r == self.log().len()"),
@@ -138,3 +138,124 @@ UNIT = Unit("mmap_meta", FNS, spec=SPEC, lemmas=[Lemma("lemma_old_new_partition"
             assumptions=["fewer than 2^32-2 events are ever published (`1 + tail as u32` overflows beyond; no listed property covers the log's counters)",
                          "S-model: a subscription or consume racing a publisher that reserved but did not yet publish (consumer_tail < publisher_tail window) is NOT covered",
                          "subscribe_to_old_events_only is todo!() upstream and excluded by the statement"])
+
+# ------------------------------------------------------------------------------------------------------------------------------------
+# mmap_log_a : A-model (adversarial environment) -- every load of the shared tails returns whatever concurrent publishers made of it
+# ------------------------------------------------------------------------------------------------------------------------------------
+SPEC_A = r"""
+use core::num::NonZeroU32;
+/// A-model `publisher_tail`: this thread may only take tickets from it
+pub struct ReserveCounter { pub tickets: Ghost<Seq<usize>> }
+impl ReserveCounter {
+    #[verifier::external_body]
+    pub fn fetch_add(&mut self, d: usize, o: Ordering) -> (t: usize)
+        requires d == 1,
+        ensures final(self).tickets@ == old(self).tickets@.push(t), t < usize::MAX,
+    { unimplemented!() }
+    #[verifier::external_body]
+    pub fn load(&self, o: Ordering) -> usize { unimplemented!() }
+}
+/// A-model `consumer_tail` ("everything below is completely written"): PROTOCOL -- a publisher may advance it only by a compare-exchange
+/// from its own ticket t to t+1 (that is what publishes entries in ticket order); any other write breaks the meaning of the counter.
+/// Loads return whatever concurrent publishers made of it: `observed` logs what THIS thread saw.
+pub struct PublishCounter { pub committed: Ghost<Seq<(usize, usize)>>, pub observed: Ghost<Seq<usize>> }
+impl PublishCounter {
+    #[verifier::external_body]
+    pub fn load(&mut self, o: Ordering) -> (r: usize)
+        ensures final(self).observed@ == old(self).observed@.push(r), final(self).committed == old(self).committed,
+    { unimplemented!() }
+    #[verifier::external_body]
+    pub fn compare_exchange_weak(&mut self, cur: usize, new: usize, o1: Ordering, o2: Ordering) -> (r: Result<usize, usize>)
+        ensures r is Ok ==> final(self).committed@ == old(self).committed@.push((cur, new)),
+                r is Err ==> final(self).committed == old(self).committed,
+                final(self).observed == old(self).observed,
+    { unimplemented!() }
+    #[verifier::external_body]
+    pub fn compare_exchange(&mut self, cur: usize, new: usize, o1: Ordering, o2: Ordering) -> (r: Result<usize, usize>)
+        ensures r is Ok ==> final(self).committed@ == old(self).committed@.push((cur, new)),
+                r is Err ==> final(self).committed == old(self).committed,
+                final(self).observed == old(self).observed,
+    { unimplemented!() }
+    /// PROTOCOL VIOLATION: blind writes to consumer_tail do not wait for earlier tickets (entries become visible before they are written)
+    #[verifier::external_body]
+    pub fn fetch_add(&mut self, d: usize, o: Ordering) -> usize requires false { unimplemented!() }
+    #[verifier::external_body]
+    pub fn store(&mut self, v: usize, o: Ordering) requires false { }
+    #[verifier::external_body]
+    pub fn swap(&mut self, v: usize, o: Ordering) -> usize requires false { unimplemented!() }
+}
+pub struct MMapContents { pub publisher_tail: ReserveCounter, pub consumer_tail: PublishCounter }
+pub struct Setter<T> { pub value: Ghost<T> }
+pub struct MMapMeta<T> { pub mmap_contents: MMapContents, pub written: Ghost<Map<int, T>> }
+impl<T> MMapMeta<T> {
+    #[verifier::external_body]
+    pub fn set_slot(&mut self, tail: usize, setter: Setter<T>)
+        ensures final(self).written@ == old(self).written@.insert(tail as int, setter.value@), final(self).mmap_contents == old(self).mmap_contents,
+    { }
+}
+pub fn spin_hint() { }
+pub struct MMapMetaDynamicSubscriber { pub head: AtomicUsize }
+pub struct MMapMetaFixedSubscriber { pub head: AtomicUsize, pub fixed_tail: usize }
+pub enum MMapMetaSubscriber { Dynamic(MMapMetaDynamicSubscriber), Fixed(MMapMetaFixedSubscriber) }
+
+/// ids handed out by the stream manager (its bookkeeping is decided under C10): fresh, distinct, in range
+pub struct StreamsManagerBase<const MAX_STREAMS: usize> { pub handed_out: Ghost<Set<u32>> }
+impl<const MAX_STREAMS: usize> StreamsManagerBase<MAX_STREAMS> {
+    #[verifier::external_body]
+    pub fn create_stream_id(&mut self) -> (id: u32)
+        ensures (id as int) < MAX_STREAMS, !old(self).handed_out@.contains(id), final(self).handed_out@ == old(self).handed_out@.insert(id),
+    { unimplemented!() }
+}
+pub struct MutinyStream { pub stream_id: u32 }
+impl MutinyStream { pub fn new(stream_id: u32) -> (r: Self) ensures r.stream_id == stream_id { MutinyStream { stream_id } } }
+pub struct MmapLog<T, const MAX_STREAMS: usize> { pub streams_manager: StreamsManagerBase<MAX_STREAMS>, pub log_queue: MMapMeta<T>, pub subscribers: [MMapMetaSubscriber; MAX_STREAMS] }
+"""
+C_META_A = "impl<SlotType> MMapMeta<SlotType>"
+FL = "src/multi/channels/reference/mmap_log.rs"
+IMPL_LOG_MULTI = r"ChannelMulti\s*<\s*'a\s*,\s*ItemType\s*,\s*&'static\s+ItemType\s*>\s*for\s+MmapLog\s*<\s*'a\s*,\s*ItemType\s*,\s*MAX_STREAMS\s*>\s*(?=\{)"
+FNS_A = [
+    fn("publish", IMPL_PUB, C_META_A, out_name="publish", props=["C09", "C03"], attrs="#[verifier::exec_allows_no_decreases_clause]", model="A",
+       sig="pub fn publish(&mut self, setter: Setter<SlotType>) -> (r: (Option<NonZeroU32>, Option<Setter<SlotType>>))",
+       sig_anchor=r"fn publish<F: FnOnce\(&mut SlotType\)>\(&self, setter: F\) -> \(Option<NonZeroU32>, Option<F>\)",
+       rules=[MUTSELF, Rule("R7-set-slot", r"let slot = unsafe \{ mutable_self\.buffer\.get_unchecked_mut\(([^()]*)\) \};\s*setter\(slot\);", r"self.set_slot(\1, setter);", count=1), SPIN,
+              Rule("A-arith", r"1 \+ tail as u32", "1u32.wrapping_add(tail as u32)", min=0, note="the 2^32-event overflow of the reported length is outside every listed property (DESIGN C09)")],
+       ensures="final(self).mmap_contents.publisher_tail.tickets@.len() == old(self).mmap_contents.publisher_tail.tickets@.len() + 1,"
+               "final(self).mmap_contents.consumer_tail.committed@ =~= old(self).mmap_contents.consumer_tail.committed@.push("
+               "   (final(self).mmap_contents.publisher_tail.tickets@.last(), (final(self).mmap_contents.publisher_tail.tickets@.last() + 1) as usize)),"
+               "final(self).written@ == old(self).written@.insert(final(self).mmap_contents.publisher_tail.tickets@.last() as int, setter.value@)",
+       loops={0: "invariant_except_break self.mmap_contents.consumer_tail.committed == old(self).mmap_contents.consumer_tail.committed,"
+                 " self.mmap_contents.publisher_tail.tickets@ == old(self).mmap_contents.publisher_tail.tickets@.push(tail), tail < usize::MAX,"
+                 " self.written@ == old(self).written@.insert(tail as int, setter.value@),\n"
+                 "ensures self.mmap_contents.consumer_tail.committed@ =~= old(self).mmap_contents.consumer_tail.committed@.push((tail, (tail + 1) as usize)),"
+                 " self.mmap_contents.publisher_tail.tickets@ == old(self).mmap_contents.publisher_tail.tickets@.push(tail),"
+                 " self.written@ == old(self).written@.insert(tail as int, setter.value@),"}, loops_optional=True),
+    fn("subscribe_to_separated_old_and_new_events", IMPL_INH, C_META_A, props=["C09"], model="A",
+       sig="pub fn subscribe_to_separated_old_and_new_events(&mut self) -> (r: (MMapMetaFixedSubscriber, MMapMetaDynamicSubscriber))",
+       sig_anchor=r"pub fn subscribe_to_separated_old_and_new_events\(self: &Arc<Self>\)",
+       rules=SUBSCRIBER_FIELDS,
+       ensures="r.0.head@ == 0, r.1.head@ == r.0.fixed_tail,"
+               "final(self).mmap_contents.consumer_tail.observed@.len() == old(self).mmap_contents.consumer_tail.observed@.len() + 1,"
+               "r.0.fixed_tail == final(self).mmap_contents.consumer_tail.observed@.last()"),
+    fn("subscribe_to_new_events_only", IMPL_INH, C_META_A, props=["C09", "C10"], model="A",
+       sig="pub fn subscribe_to_new_events_only(&mut self) -> (r: MMapMetaDynamicSubscriber)", sig_anchor=r"pub fn subscribe_to_new_events_only\(self: &Arc<Self>\)",
+       rules=SUBSCRIBER_FIELDS,
+       ensures="final(self).mmap_contents.consumer_tail.observed@.len() == old(self).mmap_contents.consumer_tail.observed@.len() + 1,"
+               "r.head@ == final(self).mmap_contents.consumer_tail.observed@.last()"),
+]
+_f = FnSpec(FL, "create_streams_for_old_and_new_events", impl=IMPL_LOG_MULTI, props=["C09"], model="A",
+            sig="pub fn create_streams_for_old_and_new_events(&mut self) -> (r: ((MutinyStream, u32), (MutinyStream, u32)))",
+            sig_anchor=r"fn create_streams_for_old_and_new_events\(self: &Arc<Self>\)",
+            rules=[Rule("R6-ref_self", r"let ref_self: &Self = self;", "", count=1),
+                   Rule("R6-mutable_self", r"let mutable_self = unsafe \{ &mut \*\(\*\(ref_self as \*const Self as \*const std::cell::UnsafeCell<Self>\)\)\.get\(\) \};", "", count=1),
+                   Rule("R6-mutable_self-use", r"\bmutable_self\.", "self.", min=1),
+                   Rule("R3-stream-new", r"MutinyStream::new\((\w+), self\)", r"MutinyStream::new(\1)", count=2, note="the Arc<Self> back-pointer of the stream is dropped")],
+            ensures="(r.0).1 != (r.1).1, ((r.0).1 as int) < MAX_STREAMS, ((r.1).1 as int) < MAX_STREAMS,"
+                    "final(self).subscribers[(r.0).1 as int] matches MMapMetaSubscriber::Fixed(old_cursor) && final(self).subscribers[(r.1).1 as int] matches MMapMetaSubscriber::Dynamic(new_cursor)"
+                    "  && old_cursor.head@ == 0 && new_cursor.head@ == old_cursor.fixed_tail")
+_f.container = "impl<ItemType, const MAX_STREAMS: usize> MmapLog<ItemType, MAX_STREAMS>"
+FNS_A.append(_f)
+UNIT_A = Unit("mmap_log_a", FNS_A, spec=SPEC_A, model="A",
+              trusted=["ReserveCounter / PublishCounter: A-model shims of publisher_tail / consumer_tail whose contracts are the PROTOCOL of the two counters (DESIGN §3.5 A-step); StreamsManagerBase::create_stream_id: fresh id (C10)"],
+              assumptions=["the meta-theorem 'every interleaving of protocol-conformant steps yields a log whose visible prefix is completely written and totally ordered' is NOT mechanised",
+                           "termination of the publication spin loop (waiting for earlier tickets) is not proved"])
+UNITS = [UNIT, UNIT_A]
